@@ -20,7 +20,7 @@ fn model_font(p: &Prog) -> Font {
 }
 
 /// The same instructions as repository types, word by word (the inverse of deserialize.rs's reading
-/// of a lig/kern word). Kern #0 is given by value, kern #1 by index into the kern table.
+/// of a lig/kern word). Kerns #0 and #3 are given by value, kerns #1 and #2 by index into the kern table.
 fn to_program(p: &Prog) -> (Program, HashMap<Char, u16>, Vec<FixWord>) {
     let instructions = p
         .words
@@ -32,8 +32,8 @@ fn to_program(p: &Prog) -> (Program, HashMap<Char, u16>, Vec<FixWord>) {
             }
             let operation = if op >= 128 {
                 let idx = 256 * (op as u16 - 128) + rem as u16;
-                if idx == 0 {
-                    Operation::Kern(FixWord(KERNS[0]))
+                if idx == 0 || idx == 3 {
+                    Operation::Kern(FixWord(KERNS[idx as usize]))
                 } else {
                     Operation::KernAtIndex(idx)
                 }
@@ -248,6 +248,9 @@ fn check_program(idx: u64, rules: &[Rule], rbc: Option<u8>, layout: Layout, word
             }
             if m.fired.iter().any(|f| f.k > 255) {
                 acc.count("instruction_beyond_255_fired");
+            }
+            if m.nodes.iter().any(|n| matches!(n, Node::Kern(k) if KERNS[*k] == 0)) {
+                acc.count("zero_kern_emitted");
             }
         }
         let want: Vec<Out> = m
@@ -565,7 +568,7 @@ fn main() {
         ctx.family(
             "programs-consecutive",
             &format!(
-                "every set of <= {max_rules} rules with distinct (left,right), left in {{boundary,a,b}}, right in {{a,b,boundary}}, op in {{2 kerns, 8 ligature forms x inserted a/b/c}}; boundarychar in {{none,c,a}}; one chain per left character; x every word over {{a,b}} of length 1..{} x 3 modes (left boundary on/off, right_boundary_override b)",
+                "every set of <= {max_rules} rules with distinct (left,right), left in {{boundary,a,b}}, right in {{a,b,boundary}}, op in {{4 kerns (0.1 and 0 by value, -0.25 and 0 by index), 8 ligature forms x inserted a/b/c}}; boundarychar in {{none,c,a}}; one chain per left character; x every word over {{a,b}} of length 1..{} x 3 modes (left boundary on/off, right_boundary_override b)",
                 words.last().map(|w| w.len()).unwrap_or(0)
             ),
             n,
@@ -594,13 +597,13 @@ fn main() {
     }
     // F2b (quick only; the thorough tier has the whole 3-rule space): 3 rules over a narrow op menu
     if ctx.quick() {
-        const NARROW: [u8; 9] = [0, 4, 7, 10, 13, 16, 19, 22, 25]; // kern #0 and the 8 forms inserting c
+        const NARROW: [u8; 10] = [0, 2, 6, 9, 12, 15, 18, 21, 24, 27]; // kern #0, zero kern #2 and the 8 forms inserting c
         let sp3 = Space::new(3);
         let combos = sp3.combos[3].clone();
-        let n = combos.len() as u64 * 729 * 3;
+        let n = combos.len() as u64 * 1000 * 3;
         let (w, shr, cb) = (&words_short, &sh, &combos);
-        ctx.family("programs-3-rules-narrow", "every set of exactly 3 rules with distinct (left,right) and op in {kern, 8 ligature forms inserting c} x boundarychar x every word of length 1..4 x 3 modes, consecutive layout", n, |i, acc| {
-            let d = vcore::digits(i, &[cb.len() as u64, 9, 9, 9, 3]);
+        ctx.family("programs-3-rules-narrow", "every set of exactly 3 rules with distinct (left,right) and op in {kern 0.1, zero kern, 8 ligature forms inserting c} x boundarychar x every word of length 1..4 x 3 modes, consecutive layout", n, |i, acc| {
+            let d = vcore::digits(i, &[cb.len() as u64, 10, 10, 10, 3]);
             let rules: Vec<Rule> = cb[d[0] as usize].iter().zip(&d[1..4]).map(|(slot, o)| Rule { left: slot / 3, right: slot % 3, op: NARROW[*o as usize] }).collect();
             check_program(i, &rules, rbc_of(d[4]), Layout::Consecutive, w, None, acc, shr, false);
         });
@@ -634,6 +637,7 @@ fn main() {
     ctx.require("ligature_of_a_ligature", "a ligature command fired on a character that was itself inserted by a ligature command");
     ctx.require("left_boundary_rule_fired", "a left boundary rule fired");
     ctx.require("right_boundary_rule_fired", "a rule fired against the right boundary character");
+    ctx.require("zero_kern_emitted", "a kern of amount zero is part of the expected output");
     ctx.require("instruction_beyond_255_fired", "an instruction at an index above 255 fired");
     ctx.finish("one evaluation per compiled program (loop verdict) and per (loop-free program, word, mode) run; non-trivial = the program has a loop, resp. the word triggers at least one lig/kern command in the reference interpreter");
 }
